@@ -484,6 +484,9 @@ def main():
     jobs.append((job_roundtrip, {}))
     jobs.append((job_array_indexing, {}))
     jobs.append((job_fp_layer_bound, {}))
+    # the re-dimensionalisation call sites of cf_radial_solver (arguments bound through the kernels' own signatures): whole-function run with two solution types
+    import c06
+    jobs.append((c06.job_whole, {'stack': [(0, False, False), (1, True, False), (0, False, False)], 'nondim': True}))
     for l in ls:
         jobs.append((job_bc_and_love, {'l': l}))
     for lo in c02.kinds():
